@@ -60,9 +60,9 @@ type Config struct {
 	// ClockSkipPct: percentage of the starts of API calls at which the (bubble) clock is first moved
 	// forward by a duration between a millisecond and a month - a suspended laptop, a long-lived
 	// server. Which starts and how far is a function of Seed, task and call index.
-	ClockSkipPct int `json:"clock_skip_pct,omitempty"`
-	StepBudget []int   `json:"step_budget"` // per task: max decision points (0 = unlimited)
-	Replay     *Sparse `json:"replay,omitempty"`
+	ClockSkipPct int     `json:"clock_skip_pct,omitempty"`
+	StepBudget   []int   `json:"step_budget"` // per task: max decision points (0 = unlimited)
+	Replay       *Sparse `json:"replay,omitempty"`
 }
 
 // Sparse is the explicit decision list of a run: everything that differs from the default
@@ -217,10 +217,11 @@ type Sim struct {
 	Trace     []TraceEvent
 	keepTrace bool
 
-	awaitStart *task         // child of the go statement just executed: its start request must arrive before anything else is decided
-	quiescent  func()        // blocks until every other goroutine of the bubble is durably blocked (synctest.Wait)
-	stuck      chan struct{} // monitor -> scheduler: nothing can run
-	monDone    chan struct{} // closed when the monitor goroutine has left synctest.Wait for good
+	awaitStart  *task         // child of the go statement just executed: its start request must arrive before anything else is decided
+	quiescent   func()        // blocks until every other goroutine of the bubble is durably blocked (synctest.Wait)
+	skipPending time.Duration // clock skip drawn while a call was in flight (see complete, KStep)
+	stuck       chan struct{} // monitor -> scheduler: nothing can run
+	monDone     chan struct{} // closed when the monitor goroutine has left synctest.Wait for good
 }
 
 // TraceEvent is one scheduler decision (kept only when tracing is requested).
@@ -925,12 +926,20 @@ func (s *Sim) complete(t *task) resp {
 			return resp{run: true}
 		}
 	case KStep:
-		// fault kind clock-skip: time passes between two calls of a task. Every other goroutine of
-		// the bubble is parked (or will park), so the sleep returns at once with the clock moved.
+		// fault kind clock-skip: time passes between calls. The clock is only moved while every
+		// task is between two calls (a process that sits idle for a minute or a month): a skip that
+		// is drawn while some other task is inside a call waits until that is so. Moving the clock
+		// under a call in flight would make a correct time-out in it fire (a first version did,
+		// DESIGN.md §12). Every other goroutine of the bubble is parked (or will park), so the sleep
+		// returns at once with the clock moved.
 		if pct := s.cfg.ClockSkipPct; pct > 0 && s.quiescent != nil {
 			x := Mix(s.cfg.Seed, 0xc10c, uint64(t.id), uint64(t.step))
-			if int(x%100) < pct {
-				d := clockSkips[(x>>8)%uint64(len(clockSkips))]
+			if int(x%100) < pct && s.skipPending < 60*24*time.Hour {
+				s.skipPending += clockSkips[(x>>8)%uint64(len(clockSkips))]
+			}
+			if s.skipPending > 0 && s.betweenCalls() {
+				d := s.skipPending
+				s.skipPending = 0
 				s.stats.ClockSkips++
 				s.stats.SimTimeMs += d.Milliseconds()
 				time.Sleep(d)
@@ -959,6 +968,24 @@ func (s *Sim) complete(t *task) resp {
 		return resp{child: c}
 	}
 	return resp{}
+}
+
+// betweenCalls reports whether no task is inside an API call: all are before their first call,
+// at the start of their next one, or finished (a goroutine started by the code under test is
+// always part of a call).
+func (s *Sim) betweenCalls() bool {
+	for _, o := range s.tasks {
+		switch {
+		case o.state == tsDone:
+		case o.dynamic:
+			return false
+		case o.state == tsNew:
+		case o.state == tsPending && (o.pending.kind == KStart || o.pending.kind == KStep):
+		default:
+			return false
+		}
+	}
+	return true
 }
 
 var clockSkips = []time.Duration{time.Millisecond, time.Second, 61 * time.Second, 10*time.Minute + time.Second, time.Hour + time.Second, 25 * time.Hour, 31 * 24 * time.Hour}
